@@ -121,6 +121,9 @@ M("C06-defers-twice", ["C06"], "pkg/gengo/context.go",
   "		if !pkgCtxForGen.IsZero() {\n			gfs.Store(g.Name(), pkgCtxForGen.genfile)\n		}",
   "		if len(pkgCtxForGen.defers) > 2 {\n			_ = pkgCtxForGen.defers[0](pkgCtxForGen)\n		}\n		if !pkgCtxForGen.IsZero() {\n			gfs.Store(g.Name(), pkgCtxForGen.genfile)\n		}",
   "with more than two registered callbacks the first runs twice")
+M("C06-undo-nested-defer", ["C06", "C02"], "pkg/gengo/context.go",
+  "		for i := 0; i < len(pkgCtxForGen.defers); i++ {\n			if err := pkgCtxForGen.defers[i](pkgCtxForGen); err != nil {", "		for _, fn := range pkgCtxForGen.defers {\n			if err := fn(pkgCtxForGen); err != nil {",
+  "reverts: callbacks registered by a running callback are dropped")
 M("C06-undo-scope-filter", ["C06", "C04", "C13"], "pkg/types/package.go",
   "			if x.Parent() == pkg.Types.Scope() {\n				p.types[x.Name()] = x\n			}", "			p.types[x.Name()] = x", "reverts the package-scope filter for types")
 M("C06-exact-key-ignored-when-sub", ["C06"], "pkg/gengo/context.go",
@@ -128,8 +131,8 @@ M("C06-exact-key-ignored-when-sub", ["C06"], "pkg/gengo/context.go",
   "		if k == prefix {\n			enabled = strings.Join(values, \"\") != \"false\"\n			if !enabled && len(tags) > 3 {\n				continue\n			}\n			return enabled\n		}",
   "gengo:x=false does not decide when the tag set is large and a :sub key is present")
 M("C06-defer-after-write", ["C06"], "pkg/gengo/context.go",
-  "		for _, fn := range pkgCtxForGen.defers {\n			if err := fn(pkgCtxForGen); err != nil {",
-  "		for i, fn := range pkgCtxForGen.defers {\n			if i == 3 {\n				_ = pkgCtxForGen.genfile.WriteToFile(pkgCtx, c.args)\n			}\n			if err := fn(pkgCtxForGen); err != nil {",
+  "		for i := 0; i < len(pkgCtxForGen.defers); i++ {\n",
+  "		for i := 0; i < len(pkgCtxForGen.defers); i++ {\n			if i == 3 {\n				_ = pkgCtxForGen.genfile.WriteToFile(pkgCtx, c.args)\n			}\n",
   "the file is written before the fourth deferred callback runs")
 
 # ---------------------------------------------------------------- C07
@@ -352,7 +355,7 @@ M("C17-named-map-shared", ["C17"], "devpkg/deepcopygen/deepcopy.go", "	out := ma
 M("C17-undo-origin", ["C17"], "devpkg/deepcopygen/deepcopy.go", "	named = named.Origin()\n", "", "reverts: generic methods emitted per instantiation")
 M("C17-undo-map-recv", ["C17"], "devpkg/deepcopygen/helper/copy_fields.go", "				fc.PtrResultOrParam = false\n			}\n		}", "				fc.PtrResultOrParam = true\n			}\n		}", "reverts: same-package map fields use pointer calling convention")
 M("C17-embedded-skipped", ["C17"], "devpkg/deepcopygen/helper/copy_fields.go", "			if sfc.Skip != nil && sfc.Skip(f) {\n				continue\n			}", "			if sfc.Skip != nil && sfc.Skip(f) || (f.Embedded() && i > 1) {\n				continue\n			}", "embedded fields after the second position are not copied")
-M("C17-second-run-differs", ["C17"], "devpkg/deepcopygen/helper/copy_fields.go", "		if fc.InSamePkg {\n			if sfc.OnLocalDep != nil {", "		if fc.InSamePkg && !(fc.HasDeepCopy && x.NumMethods() > 2) {\n			if sfc.OnLocalDep != nil {", "once the generated methods exist (second run) a dependency with three methods is treated as foreign")
+M("C17-second-run-differs", ["C17"], "devpkg/deepcopygen/helper/copy_fields.go", "			if sfc.OnLocalDep != nil {", "			if sfc.OnLocalDep != nil && x.NumMethods() == 0 {", "a dependency that already has methods (second run: the generated ones) is assumed to be generated elsewhere")
 
 # ---------------------------------------------------------------- C18
 M("C18-ignore-omit", ["C18"], "devpkg/partialstruct/partialstruct.go", "					if _, ok := ps.Omit[fieldName]; ok {\n						continue\n					}", "					if _, ok := ps.Omit[fieldName]; ok && i > 0 {\n						continue\n					}", "the first field cannot be omitted")
